@@ -163,7 +163,7 @@ def run_gram(pid, tier, rep, deadline_s):
         rec['confirmed_by_replay'] = confirmed
         rep.add(rec)
     for cr in tot['crashes']:
-        rep.add({'kind': 'no-termination' if cr['signal'] == 0 else 'engine-crash', 'known': '', 'summary': ('the real code did not return within 20 s' if cr['signal'] == 0 else 'the real code crashed (signal %s)' % cr['signal']) + ' in phase %s on grammar %s input %r' % (cr['phase'], cr['gram'], cr['input']),
+        rep.add({'kind': 'no-termination' if cr['signal'] == 0 else 'engine-crash', 'known': '', 'summary': ('the real code did not return within 30 s' if cr['signal'] == 0 else 'the real code crashed (signal %s)' % cr['signal']) + ' in phase %s on grammar %s input %r' % (cr['phase'], cr['gram'], cr['input']),
                  'spec': cr['spec'], 'nt': cr['nt'], 't': cr['t'], 'pspec': cr['prec'], 'rspec': cr['rprec'], 'input': cr['input'], 'engine': 'gram', 'grammar': cr['gram']})
     dsl_n = 0
     if pid in ('C01', 'C11'):
